@@ -71,6 +71,10 @@ def families(tier, which=("any", "kwarg", "digits", "octal", "words", "long")):
                     continue             # 22..40 digits cost minutes per family: one 32-bit and one 64-bit keyword
                 ds, asm = zip(*[digit() for _ in range(n)])
                 yield ("%s %dd" % (kw, n), [kw + " "] + list(ds), list(asm))
+        # the thread count next to actions that select the other output mode / other managers (the number is emitted by compile)
+        for tail in ((" -print0", " -fprint a") if q else (" -print0", " -fprint a", " -printf x", " -print", " -name b -fprintf o '%p'")):
+            ds, asm = zip(*[digit() for _ in range(10)])
+            yield ("-threads 10d%s" % tail, ["-threads "] + list(ds) + [tail], list(asm))
         for kw, units in UNIT_KW[:3] if q else UNIT_KW:
             for n in ((1, 15, 19, 20, 21) if q else (1, 5, 10, 15, 18, 19, 20, 21, 25)):
                 ds, asm = zip(*[digit() for _ in range(n)])
